@@ -999,7 +999,15 @@ class Lib:
         return r
 
     def _class_member_any(self, interp, cls, name):
-        for rel, mod in interp.module.registry.mods.items():
+        for rel, mod in list(interp.module.registry.mods.items()):
+            if cls in mod.classes:
+                return mod.class_member(cls, name)
+        home = {"Obs": "pyerrors/obs.py", "CObs": "pyerrors/obs.py", "Corr": "pyerrors/correlators.py", "Covobs": "pyerrors/covobs.py"}.get(cls)
+        if home is not None and home not in interp.module.registry.mods:
+            try:
+                mod = interp.module.registry.module(home)
+            except FileNotFoundError:
+                return None
             if cls in mod.classes:
                 return mod.class_member(cls, name)
         return None
